@@ -112,6 +112,8 @@ func runC17(p *core.Program, r *core.Report) {
 	r.Rule("C17.levels", "each level method gates on its own level constant with '>' before formatting", 8)
 	r.Rule("C17.level-names", "logger.LogLevel maps error/warn/info/debug (any case) to their own level constants and anything else to the default WARN level", 7)
 	r.Rule("C17.ratelimit", "checkOk suppresses iff now < last + sec*1000 and records the time only when not suppressing; level methods consult it after the gate with cacheInterval", 8)
+	r.Rule("C17.clock", "the day the logger rotates and prunes by comes from the library clock each time it is asked: no value-returning function of util/dateutil remembers its own earlier answer in package-level state", 0)
+	noSelfCacheRule(p, r, "C17.clock", []string{"util/dateutil"})
 	r.Rule("C17.rotate", "process() reopens when date unit / rotation flag / handle changed; openFile is the only opener", 2)
 
 	c17ReadPath(p, r)
